@@ -4,6 +4,8 @@ import Proofs.C11.Perm
 import Proofs.C11.Modifiable
 import Proofs.C11.Example
 import Proofs.C11.Nest
+import Proofs.C11.Wire
+import Proofs.C11.Signed
 /-!
 # C11 — PSBT roles are lossless, order-independent, never alias their arguments
 
@@ -458,5 +460,136 @@ theorem sigOnly_keeps_signature {was now : Dict} (h : addedOnly (.dict was) (.di
 -- non-vacuity
 example : addedOnly (.dict [(1, .bytes [1])]) (.dict [(1, .bytes [1]), (2, .bytes [2])]) = true := by decide
 example : addedOnly (.dict [(1, .bytes [1])]) (.dict [(2, .bytes [2])]) = false := by decide
+
+/-! ### T5w — version 0 on the wire: the fields moved between the unsigned transaction and the maps -/
+
+/-- T5w (tables, i.e. about the SOURCE): the fields `_read_tx_in` / `_read_tx_out` / `_settle_globals` fill from
+    BIP174's unsigned transaction are the ones the model's `readV0` fills, they are version-2-only fields the
+    identifier reads, and EVERY version-2-only field of every map is one of them or is refused by `assert_valid`
+    in a version 0 psbt; `to_v0` stores only to the fallback, the version and fields version 0 refuses. -/
+theorem wire_tables_ok : wireTableCheck = true := by decide
+
+/-- T5w: serialising as version 0 (the transaction's fields folded into PSBT_GLOBAL_UNSIGNED_TX, the maps written
+    without their BIP370 fields) and parsing back never changes the unsigned transaction — for EVERY psbt that has
+    one, no shape hypothesis — nor, for a psbt without silent-payment outputs (which version 0 refuses), the
+    transaction the identifier is the hash of. -/
+theorem wire_preserves_tx {p : Psbt} {w : WireV0} (h : writeV0 p = .ok w) :
+    unsignedTx (readV0 w) false = unsignedTx p false ∧
+    ((∀ i, i < p.nOut → (p.slot ⟨.out, i, "sp_v0_info"⟩).falsy = true) →
+      unsignedTx (readV0 w) true = unsignedTx p true) :=
+  ⟨by rw [readV0_tx, writeV0_tx h], wire_ident h⟩
+
+/-- T5w: parse ∘ serialize is the identity (on every location of the psbt's own maps) for a psbt shaped as
+    `parse` / `from_tx` leave a version 0 psbt (`V0Shaped`: the sequence of every input and the lock time are
+    stated — a version 0 transaction always states them —, output index, amount and script hold values, every
+    other version-2-only field holds `__init__`'s default).  A psbt built by `to_v0` from a version 2 psbt with an
+    absent sequence is NOT so shaped: it reads back with the final sequence stated (same transaction:
+    `wire_preserves_tx`). -/
+theorem wire_parse_serialize {p : Psbt} (hp : V0Shaped p) {w : WireV0} (h : writeV0 p = .ok w) :
+    Same (readV0 w) p := wire_roundtrip hp h
+
+/-- T5: `to_v0 ∘ to_v2` is the identity on a psbt so shaped (and never fails on one). -/
+theorem toV0_toV2_id {p : Psbt} (hp : V0Shaped p) : ∃ q, toV0 (toV2 p) = .ok q ∧ Same q p := toV0_toV2 hp
+
+-- non-vacuity: `exV0` (Proofs/C11/Wire.lean), a version 0 psbt of one input and one output, shaped as `parse` leaves it
+example : V0Shaped exV0 := exV0_shaped
+example : (writeV0 exV0).toBool = true := by decide
+example : ∃ q, toV0 (toV2 exV0) = .ok q ∧ Same q exV0 := toV0_toV2_id exV0_shaped
+
+/-! ### T6v — a signer's answer, whole: the structural check AND the signatures that arrived -/
+
+/-- T6v (tables, about the SOURCE): `_assert_ecdsa_sigs_verify` / `_assert_taproot_sigs_verify` look at exactly
+    the signature fields the Signer stores to, which are the ones `assert_signed` counts as "signed";
+    `new_signers` attributes every field of `_SIGNATURE_FIELDS`; "finalized" is told by the two final scripts. -/
+theorem signed_tables_ok : signedTableCheck = true := by decide
+
+/-- T6v soundness of `assert_signatures_only` (whether ONE signature verifies is the parameter `V`: C02/C03/C10):
+    an accepted answer passes the structural check (`sigOnly_sound`: same version and transaction, everything that
+    is not a signature field came back as sent, signature fields only gained entries, flags no looser), every
+    partial signature ends in the stated sig-hash type, every entry the answer ADDED to a verified signature field
+    verifies, and every entry of such a map is either an entry of the request, unchanged, or an added one that
+    verifies — i.e. the answer differs from the request by valid added signatures.  (The two musig2 maps are
+    permitted additions the source does not verify here: not claimed.) -/
+theorem assertSignaturesOnly_sound {V : SigOracle} {req ret : Psbt} (h : assertSignaturesOnly V req ret = true) :
+    sigOnly req ret = true ∧
+    ∀ i, i < req.nIn → sigHashTypeOK ret i = true ∧ ∀ n ∈ Gen.Combine.verifiedSigFields,
+      (∀ kv ∈ addedEntries (req.slot (sigLocOf i n)) (ret.slot (sigLocOf i n)), V ret i n kv.1 kv.2 = true) ∧
+      (∀ was now, req.slot (sigLocOf i n) = .dict was → ret.slot (sigLocOf i n) = .dict now → Sorted now →
+        ∀ k v, (k, v) ∈ now → dlookup was k = some v ∨ V ret i n k v = true) := by
+  unfold assertSignaturesOnly at h
+  simp only [Bool.and_eq_true] at h
+  obtain ⟨hs, hall⟩ := h
+  refine ⟨hs, ?_⟩
+  intro i hi
+  have hi' := List.all_eq_true.mp hall i (List.mem_range.mpr hi)
+  simp only [Bool.and_eq_true] at hi'
+  refine ⟨hi'.1, ?_⟩
+  intro n hn
+  refine ⟨fun kv hkv => sigsVerify_some hi'.2 hn hkv, ?_⟩
+  intro was now hw hnow hsorted k v hm
+  have key : ∀ n ∈ Gen.Combine.verifiedSigFields,
+      Gen.Combine.signatureFields.contains n = true ∧ ∃ f ∈ fieldsOf .inp, f.name = n := by decide
+  obtain ⟨hsig, f, hfm, rfl⟩ := key n hn
+  obtain ⟨_, _, hin, _, _, _⟩ := sigOnly_sound hs
+  have hadd := (hin i hi f hfm).2 hsig
+  rw [show (⟨.inp, i, f.name⟩ : Loc) = sigLocOf i f.name from rfl, hw, hnow] at hadd
+  rcases entry_kept_or_added hsorted hadd hm with h1 | h2
+  · exact Or.inl h1
+  · right
+    have := sigsVerify_some hi'.2 hn (kv := (k, v)) (by rw [hw, hnow]; exact h2)
+    exact this
+
+/-- T6v soundness of `assert_signed`: an accepted psbt has inputs, none of them finalized; EVERY entry of every
+    verified signature field of every input verifies; and, unless `allow_partial`, every input holds one. -/
+theorem assertSigned_sound {V : SigOracle} {allowPartial : Bool} {p : Psbt} (h : assertSigned V allowPartial p = true) :
+    p.nIn ≠ 0 ∧ ∀ i, i < p.nIn →
+      anyTruthy p i Gen.Combine.finalizedIfAny = false ∧ sigHashTypeOK p i = true ∧
+      (∀ n ∈ Gen.Combine.verifiedSigFields, ∀ kv ∈ sigEntries (p.slot (sigLocOf i n)), V p i n kv.1 kv.2 = true) ∧
+      (allowPartial = false → anyTruthy p i Gen.Combine.signedIfAny = true) := by
+  unfold assertSigned at h
+  simp only [Bool.and_eq_true] at h
+  obtain ⟨⟨hn, _⟩, hall⟩ := h
+  refine ⟨by simpa using hn, ?_⟩
+  intro i hi
+  have hi' := List.all_eq_true.mp hall i (List.mem_range.mpr hi)
+  simp only [Bool.and_eq_true, Bool.or_eq_true] at hi'
+  obtain ⟨⟨⟨h1, h2⟩, h3⟩, h4⟩ := hi'
+  refine ⟨by simpa using h1, h2, fun n hn kv hkv => sigsVerify_none h3 hn hkv, ?_⟩
+  intro ha
+  rcases h4 with h4 | h4
+  · rw [ha] at h4; cases h4
+  · exact h4
+
+/-- T6v `new_signers`: every fingerprint it names is the stated origin of an entry the answer ADDED to a signature
+    field of some input (the origin look-up is the parameter `O`); asked about the request itself it names nobody. -/
+theorem newSigners_sound {O : OriginOracle} {req ret : Psbt} {s : List Nat} (h : newSigners O req ret = .ok s) :
+    ret.nIn = req.nIn ∧ ∀ f ∈ s, ∃ i, i < req.nIn ∧ ∃ n ∈ Gen.Combine.signatureFields,
+      ∃ kv ∈ addedEntries (req.slot (sigLocOf i n)) (ret.slot (sigLocOf i n)), O ret i n kv.1 = some f := by
+  unfold newSigners at h
+  split at h
+  · cases h
+  · rename_i hne
+    split at h
+    · cases h
+    · rename_i s' hs
+      cases h
+      refine ⟨by simpa using hne, ?_⟩
+      intro f hf
+      rcases signersOfInputs_sound _ hs f hf with h0 | ⟨i, hi, n, hn, kv, hkv, ho⟩
+      · cases h0
+      · have key : ∀ n ∈ Gen.Combine.newSignersFields, n ∈ Gen.Combine.signatureFields := by decide
+        exact ⟨i, List.mem_range.mp hi, n, key n hn, kv, hkv, ho⟩
+
+theorem newSigners_self (O : OriginOracle) (p : Psbt) : newSigners O p p = .ok [] := by
+  unfold newSigners
+  simp [signersOfInputs_self]
+
+-- non-vacuity: exB's signature added to exA's copy; an oracle accepting it, one refusing it
+example : assertSignaturesOnly (fun _ _ _ _ _ => true) exA exAB = true := by decide
+example : assertSignaturesOnly (fun _ _ _ k _ => k != 2) exA exAB = false := by decide
+example : assertSignaturesOnly (fun _ _ _ _ _ => true) exAB exA = false := by decide      -- a signature dropped
+example : assertSigned (fun _ _ _ _ _ => true) false exAB = true := by decide
+example : newSigners (fun _ _ _ k => some (100 + k)) exA exAB = .ok [102] := by decide
+example : newSigners (fun _ _ _ _ => none) exA exAB = .error .value := by decide
 
 end Props.C11
